@@ -200,7 +200,7 @@ def sigma_filter(filename, region, step_size, box_size, shape, domask,
     # Manually scale the data if BSCALE is not 1.0
     header = fits.getheader(filename)
     if 'BSCALE' in header:
-        data *= header['BSCALE']
+        data = data * header['BSCALE']
 
     # force float64 for consistency
     data = data.astype(np.float64)
